@@ -87,10 +87,10 @@ pub fn check_closest(sh: &mut Shard, a: &IG, q: IP, lat: &Lat, verbose: bool) {
             if l == Loc::E {
                 sh.violation(&format!("closest_point.intersection_iff_intersects|{kind}|-"), detail("closest_point.intersection_iff_intersects", a, Some(q), lat, "SinglePoint (p does not intersect g)".into(), format!("Intersection({:?})", c), json!({})));
             } else {
-                // the reported point is p itself, up to the rounding of a projection (4 ulps of the coordinate magnitude + extent)
-                let tol = 8.0 * U * (mag + ext);
-                let err = (c.x() - p.x()).abs().max((c.y() - p.y()).abs());
-                sh.maximum("intersection_point_err_over_tol", err / tol);
+                // the reported point is p itself (bit for bit, since Line::closest_point was repaired to return p rather
+                // than the recomputed projection)
+                let err = if c.x().to_bits() == p.x().to_bits() && c.y().to_bits() == p.y().to_bits() { 0.0 } else { 1.0 };
+                let tol = 0.5;
                 if err > tol {
                     sh.violation(&format!("closest_point.intersection_is_p|{kind}|-"), detail("closest_point.intersection_is_p", a, Some(q), lat, format!("{:?}", p), format!("{:?}", c), json!({})));
                 }
@@ -154,7 +154,7 @@ fn linear_parts(a: &IG) -> Option<Vec<Vec<IP>>> {
 
 /// Vertices of a line string as query points, with coordinates of MIXED magnitude (m*2^e, e in -30..40) or plain decimal
 /// fractions (k/10): a vertex lies on the geometry whatever `start + t*(end - start)` rounds to, so the answer must be
-/// an Intersection (its payload p up to the rounding of the projection).
+/// Intersection(p) with p bit-identical to the query.
 pub fn check_vertex_queries(sh: &mut Shard, cs: &[(f64, f64)], verbose: bool) {
     use geo::LineString;
     let pts: Vec<Coord<f64>> = cs.iter().map(|&(x, y)| Coord { x, y }).collect();
@@ -162,7 +162,6 @@ pub fn check_vertex_queries(sh: &mut Shard, cs: &[(f64, f64)], verbose: bool) {
         return;
     }
     let ls = LineString::new(pts.clone());
-    let mag = pts.iter().fold(0.0f64, |m, c| m.max(c.x.abs()).max(c.y.abs()));
     let hex = |c: &Coord<f64>| format!("{:016x},{:016x}", c.x.to_bits(), c.y.to_bits());
     for (i, p) in pts.iter().enumerate() {
         let q = Point(*p);
@@ -179,8 +178,7 @@ pub fn check_vertex_queries(sh: &mut Shard, cs: &[(f64, f64)], verbose: bool) {
             sh.eval(1);
             let det = |got: String| json!({"property": "C12", "check": "closest_point.vertex_query", "kind": "vertex_queries", "coords_hex": pts.iter().map(|c| hex(c)).collect::<Vec<_>>(), "coords": format!("{:?}", pts), "vertex": i, "site": site, "expected": format!("Intersection({:?})", p), "got": got});
             match got {
-                // (as everywhere in C12: the payload is p up to the rounding of the projection, the VARIANT is what is exact)
-                Ok(Closest::Intersection(c)) if (c.x() - p.x).abs().max((c.y() - p.y).abs()) <= 8.0 * U * mag => {}
+                Ok(Closest::Intersection(c)) if c.x().to_bits() == p.x.to_bits() && c.y().to_bits() == p.y.to_bits() => {}
                 Ok(other) => {
                     if verbose {
                         println!("{site} vertex {i}: {:?}", other);
